@@ -1,2 +1,118 @@
-(** C13 — property theorems (placeholder while the model is being tied to the code) *)
-From PV Require Import Lib.Common Model.C13_Coanc.
+(** C13 — property theorems only: statement, [exact] of a lemma proved in Proofs/C13_Coanc.v, [Print Assumptions].
+    Model: Model/C13_Coanc.v (mirrors the four from_gmat estimators and the DenseCoancestryMatrix views/summaries).
+    A genotype matrix is its allele-count table X (n taxa x m markers), [from_gmat c pl m X] is the call
+    [c] in {molecular, VanRaden p_anc, Yang p_anc, weighted mkrwt afreq} on ploidy [pl]. *)
+From PV Require Import Lib.Common Model.C13_Coanc Proofs.C13_Coanc.
+Local Open Scope Q_scope.
+
+(** Molecular coancestry is twice the average identity-by-state probability of alleles drawn from the two
+    individuals: for every table of phased 0/1 alleles [A] (taxa x loci x ploidy alleles), haploid or diploid,
+    any number of taxa and m > 0 loci, the (i,j) entry of the molecular matrix computed from the allele counts
+    equals 2 * mean over loci of P(allele of i = allele of j). *)
+Theorem C13_molecular_is_twice_ibs : forall (pl : Z) (m : nat) (A : list (list (list Z))) G i j,
+  (pl = 1 \/ pl = 2)%Z -> (0 < m)%nat -> alleles_ok (Z.to_nat pl) m A -> (i < length A)%nat -> (j < length A)%nat ->
+  mol_from_gmat pl m (map dosage A) = ROk G ->
+  entry G i j == twice_mean_ibs (nth i A []) (nth j A []).
+Proof. exact mol_is_twice_ibs. Qed.
+Print Assumptions C13_molecular_is_twice_ibs.
+
+(** The kinship view is exactly half the coancestry view (matrix view and accessors), the coancestry view is the matrix. *)
+Theorem C13_kinship_half : forall G i j,
+  entry (mat_asformat Kinship G) i j == (1 # 2) * entry (mat_asformat Coancestry G) i j /\
+  entry (mat_asformat Coancestry G) i j == entry G i j /\
+  kinship G i j == (1 # 2) * coancestry G i j.
+Proof. exact kinship_half. Qed.
+Print Assumptions C13_kinship_half.
+
+(** Every relationship matrix is square (ntaxa x ntaxa) ... *)
+Theorem C13_square : forall c pl m X G, from_gmat c pl m X = ROk G -> length G = length X /\ rows_len (length X) G.
+Proof. exact from_gmat_square. Qed.
+Print Assumptions C13_square.
+
+(** ... symmetric ... *)
+Theorem C13_symmetric : forall c pl m X G i j, rows_len m X -> admissible c pl X -> from_gmat c pl m X = ROk G ->
+  entry G i j == entry G j i.
+Proof. intros c pl m X G i j HX Ha E. exact (is_gram_sym G i j (from_gmat_is_gram c pl m X G HX Ha E)). Qed.
+Print Assumptions C13_symmetric.
+
+(** ... and positive semidefinite: x'Gx >= 0 for EVERY rational vector x (no rounding in the model: it is a
+    non-negatively weighted sum of squares), for all four estimators, all sizes, all admissible arguments
+    (non-negative weights; reference frequencies in [0,1] — explicit ones are range-checked by the code itself,
+    estimated ones lie in [0,1] because allele counts lie in 0..ploidy). *)
+Theorem C13_psd : forall c pl m X G x, rows_len m X -> admissible c pl X -> from_gmat c pl m X = ROk G ->
+  0 <= qform x G.
+Proof. intros c pl m X G x HX Ha E. exact (is_gram_psd G x (from_gmat_is_gram c pl m X G HX Ha E)). Qed.
+Print Assumptions C13_psd.
+
+(** The matrix object carries the taxon and group labels of its source. *)
+Theorem C13_labels_carried : forall t g r cm, with_labels t g r = ROk cm ->
+  cm_taxa cm = t /\ cm_grp cm = g /\ r = ROk (cm_mat cm).
+Proof. exact with_labels_carried. Qed.
+Print Assumptions C13_labels_carried.
+
+(** Estimators that do not re-estimate reference frequencies commute with any permutation / sub-selection /
+    repetition of taxa: the matrix of the selected taxa is the selected rows and columns of the full matrix
+    (Leibniz-equal lists of rationals, not merely close). *)
+Theorem C13_perm_subset_equivariant : forall c pl m X ix G, fixed_ref c -> Forall (fun i => (i < length X)%nat) ix ->
+  from_gmat c pl m X = ROk G -> from_gmat c pl m (select [] ix X) = ROk (select2 ix G).
+Proof. exact from_gmat_select. Qed.
+Print Assumptions C13_perm_subset_equivariant.
+
+(** The restriction to fixed reference frequencies is necessary: VanRaden with estimated frequencies does not commute. *)
+Theorem C13_reestimated_not_equivariant : exists pl m X ix G G',
+  Forall (fun i => (i < length X)%nat) ix /\ vr_from_gmat pl m X ANone = ROk G /\
+  vr_from_gmat pl m (select [] ix X) ANone = ROk G' /\ qll_eqb G' (select2 ix G) = false.
+Proof. exact reestimated_not_equivariant. Qed.
+Print Assumptions C13_reestimated_not_equivariant.
+
+(** max / min are attained bounds of the entries, mean is sum / count, kinship format halves each of them. *)
+Theorem C13_extremes : forall G : list (list Q), concat G <> [] ->
+  (In (max_all Coancestry G) (concat G) /\ forall x, In x (concat G) -> x <= max_all Coancestry G) /\
+  (In (min_all Coancestry G) (concat G) /\ forall x, In x (concat G) -> min_all Coancestry G <= x) /\
+  mean_all Coancestry G == sumQ (concat G) / Zq (Z.of_nat (length (concat G))) /\
+  max_all Kinship G == (1 # 2) * max_all Coancestry G /\ min_all Kinship G == (1 # 2) * min_all Coancestry G /\
+  mean_all Kinship G == (1 # 2) * mean_all Coancestry G.
+Proof. exact extremes_spec. Qed.
+Print Assumptions C13_extremes.
+
+(** max_inbreeding is the largest diagonal entry. *)
+Theorem C13_max_inbreeding : forall G : list (list Q), G <> [] ->
+  (exists i, (i < length G)%nat /\ max_inbreeding Coancestry G = entry G i i) /\
+  (forall i, (i < length G)%nat -> entry G i i <= max_inbreeding Coancestry G) /\
+  max_inbreeding Kinship G == (1 # 2) * max_inbreeding Coancestry G.
+Proof. exact max_inbreeding_spec. Qed.
+Print Assumptions C13_max_inbreeding.
+
+(** The model's inverse is a two-sided inverse whenever it is produced (exact check, no trust in the elimination). *)
+Theorem C13_inverse_sound : forall G H, inv_checked G = Some H ->
+  mat_eq (mmul G H) (ident (length G)) /\ mat_eq (mmul H G) (ident (length G)).
+Proof. exact inv_checked_sound. Qed.
+Print Assumptions C13_inverse_sound.
+
+(** non-vacuity: concrete inputs meeting the hypotheses of the theorems above *)
+Example C13_hyps_satisfiable :
+  alleles_ok 2 2 [[[0;1];[1;1]];[[0;0];[1;0]]]%Z /\
+  rows_len 3 [[0;1;2];[2;2;0];[1;1;1]]%Z /\ dosages_ok 2 [[0;1;2];[2;2;0];[1;1;1]]%Z /\
+  admissible (CVr ANone) 2 [[0;1;2];[2;2;0];[1;1;1]]%Z /\ admissible (CGw (AArr [1; 1 # 2; 0]) (AScalar (1 # 2))) 2 [[0;1;2];[2;2;0];[1;1;1]]%Z /\
+  fixed_ref (CYang (AScalar (1 # 4))) /\
+  (exists G, from_gmat (CVr ANone) 2 3 [[0;1;2];[2;2;0];[1;1;1]]%Z = ROk G) /\
+  (exists G, from_gmat (CYang (AScalar (1 # 4))) 2 3 [[0;1;2];[2;2;0];[1;1;1]]%Z = ROk G) /\
+  (exists G, from_gmat (CGw (AArr [1; 1 # 2; 0]) (AScalar (1 # 2))) 2 3 [[0;1;2];[2;2;0];[1;1;1]]%Z = ROk G) /\
+  (exists G H, mol_from_gmat 2 3 [[0;1;2];[2;2;0];[2;1;1]]%Z = ROk G /\ inv_checked G = Some H).
+Proof.
+  unfold alleles_ok, locus_ok, is01, rows_len, dosages_ok, admissible, wt_nonneg, fixed_ref, dosages_ok.
+  repeat match goal with
+         | |- _ /\ _ => split
+         | |- Forall _ _ => constructor
+         | |- exists _, _ => eexists
+         | |- _ = ROk _ => vm_compute; reflexivity
+         | |- inv_checked _ = Some _ => vm_compute; reflexivity
+         | |- _ <> _ => discriminate
+         | |- _ -> _ => intro
+         | |- (_ <= _)%Z => lia
+         | |- (_ <= _ <= _)%Z => lia
+         | |- _ <= _ => discriminate
+         | |- _ \/ _ => (left; reflexivity) || (right; reflexivity)
+         | |- _ = _ => reflexivity
+         end.
+Qed.
